@@ -47,6 +47,9 @@ detail = []
 for pid in sorted(claimed):
     c = claimed[pid]
     detail.append(f"**{pid}** - technique: {c.get('technique','')}\n\n{c['level_claimed']['text']}\n\n*Assumed / trusted:* {c['level_note']}\n")
+fixed_md = "\n".join("* " + x[len("fixed: "):] if x.startswith("fixed: ") else "* " + x for x in kf["fixed"])
+known_md = "\n".join(f"* **{k.get('property')}** `{k.get('id')}` ({k.get('entry_point')}): {k.get('what')}" + (f" - *why not repaired:* {k['why_not_fixed']}" if k.get('why_not_fixed') else "") for k in kf["findings"]) or "(none)"
+d = put(d, "FIXED", fixed_md); d = put(d, "KNOWN", known_md)
 d = put(d, "STATUS", status); d = put(d, "SEEDED", seeded); d = put(d, "DETAIL", "\n".join(detail))
 open(f"{V}/DESIGN.md", "w").write(d)
 print(status)
